@@ -362,3 +362,107 @@ Definition tinyphi_guess : helix :=
 Definition tinyphi_libm : libm :=
   {| lsin := fun x => x; lcos := fun _ => 1; latan2 := fun _ _ => - 0x1.921fb54442d18p+0;
      lhypot := fun _ b => abs b; lfloor := fun x => x |}.
+
+(* track_fitting.rs:112-119 / :245-252: the helix built from six parameters *)
+Definition helix_of_params (l : list PrimFloat.float) : helix :=
+  let g i := nth i l PrimFloat.zero in mk_helix (g 0%nat) (g 1%nat) (g 2%nat) (g 3%nat) (g 4%nat) (g 5%nat).
+
+(* ---------------- a binary64 instance with the REAL cost kernel (satisfiability of the C14 hypotheses) ----------------
+   Everything the theorems leave abstract is given a computable binary64 definition, as close to the code as Coq can
+   evaluate: the cost kernel is the line-by-line model of coq/Recon/Helix.v (norm_sqr(q, helix.at(helix.closest_t(q))),
+   track_fitting.rs:258-261, tied bit for bit by C16), over a software libm (Taylor / argument reduction; about 1e-15
+   accurate, NOT glibc), and the optimiser is a small simplex prober `mini_nm`: it asks every vertex of the initial
+   simplex (as NelderMead::init does), then one reflection 2 * best - worst, and returns the best vector it has asked. *)
+Module B64.
+  (* floor for |x| < 2^51 by the round-to-integer trick; larger values are integers already *)
+  Definition sfloor (x : float) : float :=
+    if abs x <? 0x1p51 then let r := (x + 0x1.8p52) - 0x1.8p52 in if x <? r then r - 1 else r else x.
+  (* sum_{i} (-1)^i y^(2i+s) / (2i+s)!  (s = 1: sin, s = 0: cos), n terms after the first *)
+  Fixpoint tayl (n : nat) (k term acc y2 : float) : float :=
+    match n with
+    | O => acc
+    | S m => let term' := - (term * y2) / ((k + 1) * (k + 2)) in tayl m (k + 2) term' (acc + term') y2
+    end.
+  Definition reduce (x : float) : float := x - sfloor (x / TWO_PI + 0.5) * TWO_PI.        (* into [-pi, pi] *)
+  Definition ssin (x : float) : float := let y := reduce x in tayl 16 1 y y (y * y).
+  Definition scos (x : float) : float := let y := reduce x in tayl 16 0 1 1 (y * y).
+  (* atan z = z - z^3/3 + ..  after halving the angle twice *)
+  Fixpoint atl (n : nat) (k pw acc z2 : float) : float :=
+    match n with
+    | O => acc
+    | S m => let pw' := - (pw * z2) in atl m (k + 2) pw' (acc + pw' / (k + 2)) z2
+    end.
+  Definition satan_small (z : float) : float :=
+    let h u := u / (1 + sqrt (1 + u * u)) in let w := h (h z) in 4 * atl 14 1 w w (w * w).
+  Definition satan (z : float) : float :=
+    if abs z <=? 1 then satan_small z
+    else if 0 <? z then PI / 2 - satan_small (1 / z) else - (PI / 2) - satan_small (1 / z).
+  Definition satan2 (y x : float) : float :=
+    if 0 <? x then satan (y / x)
+    else if x <? 0 then (if y <? 0 then satan (y / x) - PI else satan (y / x) + PI)
+    else if 0 <? y then PI / 2 else if y <? 0 then - (PI / 2) else 0.
+  Definition soft_libm : libm :=
+    {| lsin := ssin; lcos := scos; latan2 := satan2; lhypot := fun a b => sqrt (a * a + b * b); lfloor := sfloor |}.
+
+  (* Problem::cost, the summand (track_fitting.rs:258-261) *)
+  Definition real_point_val (L : libm) (p : list float) (q : spoint) : float :=
+    let H := helix_of_params p in
+    let t := closest_t L H q EPS 20 in
+    let '(x, y, z) := helix_at L H t in
+    let dx := x - sp_x L q in let dy := y - sp_y L q in let dz := z - sp_z q in
+    dx * dx + dy * dy + dz * dz.
+
+  Section MiniNM.
+    Variable F : Type.
+    Variables (fltb : F -> F -> bool) (fadd fsub : F -> F -> F).
+    Fixpoint ask_all (vs : list (list F)) (acc : list (list F * F)) (k : list (list F * F) -> strategy F) : strategy F :=
+      match vs with
+      | [] => k acc
+      | v :: t => Ask v (fun y => ask_all t ((v, y) :: acc) k)
+      end.
+    Fixpoint pick (better : F -> F -> bool) (cur : list F * F) (l : list (list F * F)) : list F * F :=
+      match l with
+      | [] => cur
+      | x :: t => pick better (if better (snd x) (snd cur) then x else cur) t
+      end.
+    Fixpoint map2 (f : F -> F -> F) (a b : list F) : list F :=
+      match a, b with
+      | x :: a', y :: b' => f x y :: map2 f a' b'
+      | _, _ => []
+      end.
+    Definition mini_nm (s : list (list F)) : strategy F :=
+      ask_all s [] (fun ev =>
+        match ev with
+        | [] => Crash
+        | e :: t =>
+            let b := pick fltb e t in
+            let w := pick (fun x y => fltb y x) e t in
+            let xr := map2 (fun bi wi => fadd bi (fsub bi wi)) (fst b) (fst w) in
+            Ask xr (fun y => Done (Some (fst (pick fltb (xr, y) ev))))
+        end).
+  End MiniNM.
+
+  (* three points of the helix x0 = 0.3, y0 = 0, z0 = 0, r = 0.25, phi0 = pi, h = 1 m at t = 0.2, 0.35, 0.5 (r, phi, z) *)
+  Definition pts : list spoint :=
+    [ mk_spoint 0x1.2f7dd836a13ffp-4 (-0x1.78234260f36d7p-1) 0x1.04c26be3b06cfp-5;
+      mk_spoint 0x1.b90a55610dda0p-4 (-0x1.d77d8cf79fac9p-1) 0x1.c8543cce74beap-5;
+      mk_spoint 0x1.27cf9e3b1d7d6p-3 (-0x1.f5202015dafdfp-1) 0x1.45f306dc9c883p-4 ].
+  (* an initial guess near it: 0.31, 0.01, 0, 0.26, pi, 0.9 *)
+  Definition guess6 (_ : list spoint) (_ _ _ : spoint) : list float :=
+    [0x1.3d70a3d70a3d7p-2; 0x1.47ae147ae147bp-7; 0; 0x1.0a3d70a3d70a4p-2; PI; 0x1.ccccccccccccdp-1].
+  Definition bump (x : float) : float := if x =? 0 then 0x1.0624dd2f1a9fcp-12 else x * 0x1.0cccccccccccdp+0.
+  Definition tree : list (list float) -> strategy float := mini_nm float PrimFloat.ltb PrimFloat.add PrimFloat.sub.
+  Definition fit : list spoint -> res (track float) :=
+    fit_cluster_to_helix float spoint sp_r (sp_x soft_libm) (sp_y soft_libm) PrimFloat.ltb PrimFloat.eqb fcmp_prim
+      PrimFloat.is_nan PrimFloat.add PrimFloat.sub PrimFloat.mul (fun x => x / 2) PrimFloat.abs 0
+      guess6 bump (real_point_val soft_libm) (fun hp q => closest_t soft_libm (helix_of_params hp) q EPS 20)
+      (fun c s => run_strategy c (tree s)) true.
+  Definition the_cost : list float -> res float :=
+    cost float spoint PrimFloat.is_nan PrimFloat.add 0 (real_point_val soft_libm) pts.
+  Definition the_simplex : list (list float) :=
+    match fit_simplex float spoint sp_r (sp_x soft_libm) (sp_y soft_libm) PrimFloat.ltb PrimFloat.eqb fcmp_prim
+            PrimFloat.add PrimFloat.sub PrimFloat.mul (fun x => x / 2) PrimFloat.abs guess6 bump pts with
+    | Ok s => s
+    | _ => []
+    end.
+End B64.
